@@ -220,7 +220,8 @@ pub fn run(tier: &str, seed: u64) -> i32 {
         original rule on every document, and a second round trip is a fixed point. A second stream puts YAML-typed plain \
         scalars (1, 1.5, true, ~, null, .inf and their quoted spellings) where the format wants strings - identifier \
         names, the condition - and null / non-sequence values where it wants example lists: text and value must \
-        agree on whether the rule loads. Non-trivial: the rule holds a \
+        agree on whether the rule loads; texts with anchors, aliases and merge keys; and the optimised rule must \
+        agree with the rule its serialised form loads to (up to the known findings K1 / K2). Non-trivial: the rule holds a \
         quoting-sensitive scalar; distinct by rule text."
         .into();
     report.assumptions = vec![];
